@@ -71,11 +71,12 @@ def match_known(violation, known):
 
 
 # ------------------------------------------------------------------------ replay
-def write_replay(prop, world, seed, cfg, steps, res, violation):
+def write_replay(prop, world, seed, cfg, steps, res, violation, prelude=None):
     from . import kernel
     d = os.path.join(VERIF_DIR, "replays")
     os.makedirs(d, exist_ok=True)
     body = {"property": prop, "oracle": violation["oracle"], "world": world, "run_seed": seed, "config": cfg,
+            "prelude": prelude or [],
             "steps": steps, "first_bad_step": violation["step"], "message": violation["message"],
             "expected": violation["expected"], "observed": violation["observed"],
             "detail": violation.get("detail"), "log_digest": res["digest"], "tree": kernel.tree_info()}
@@ -93,6 +94,9 @@ def dump_replay(body):
         if k == "steps":
             inner = ",\n  ".join(json.dumps(s, default=list) for s in v)
             lines.append(' "steps": [\n  %s\n ]' % inner)
+        elif k == "prelude":
+            inner = ",\n  ".join(json.dumps(s, default=list) for s in v)
+            lines.append(' "prelude": [\n  %s\n ]' % inner if v else ' "prelude": []')
         else:
             lines.append(" %s: %s" % (json.dumps(k), json.dumps(v, default=list)))
     return "{\n" + ",\n".join(lines) + "\n}\n"
@@ -102,6 +106,12 @@ def cmd_replay(path, quiet=False):
     from . import kernel
     body = json.load(open(path))
     cls = kernel.get_world(body["world"])
+    for p in body.get("prelude") or []:
+        # earlier runs of the same process: only the process state they leave behind matters
+        try:
+            kernel.replay_run(cls, p["config"], p["steps"])
+        except Exception:  # noqa: BLE001
+            pass
     res = kernel.replay_run(cls, body["config"], body["steps"])
     same = [v for v in res["violations"] if v["property"] == body["property"] and v["oracle"] == body["oracle"]]
     out = {"digest": res["digest"], "expected_digest": body.get("log_digest"), "reproduced": bool(same),
@@ -156,10 +166,14 @@ def cmd_selftest_determinism(nseeds):
 
 # ------------------------------------------------------------------------- check
 def cmd_check(prop, tier, runs=None, wall=None):
-    from . import kernel, batch, minimise
+    from . import kernel, batch, minimise, pristine
     t0 = time.time()
     world = kernel.PROPERTY_WORLD[prop]
     cls = kernel.get_world(world)
+    # forked before this process executes any tracklib code: every corpus replay, every
+    # minimisation test and every confirmation starts from import-time process state
+    clean = pristine.Pristine()
+    runner = lambda cfg, steps, prelude=None: clean.run(world, cfg, steps, prelude)  # noqa: E731
     batch_seed = int(os.environ.get("VERIF_SEED", "1"))
     known = load_known()
     exit_code = 0
@@ -176,7 +190,10 @@ def cmd_check(prop, tier, runs=None, wall=None):
                 continue
             body = json.load(open(os.path.join(corpus_dir, name)))
             corpus_n += 1
-            res = kernel.replay_run(cls, body["config"], body["steps"])
+            res = runner(body["config"], body["steps"], body.get("prelude") or None)
+            if not res.get("ok"):
+                print("HARNESS-ERROR: corpus file %s cannot be executed:\n%s" % (name, res.get("error")))
+                return 2
             for v in res["violations"]:
                 if v["property"] != prop:
                     continue
@@ -184,7 +201,8 @@ def cmd_check(prop, tier, runs=None, wall=None):
                 if f:
                     known_hit[f["id"]] = f
                 elif new_violation is None:
-                    new_violation = (0, body["config"], res["steps"], v, "corpus:" + name)
+                    new_violation = (0, body["config"], res["steps"], v, "corpus:" + name,
+                                     body.get("prelude") or None)
 
     # 2. seeded batch
     def is_known(vrec):
@@ -208,7 +226,8 @@ def cmd_check(prop, tier, runs=None, wall=None):
             if f:
                 known_hit[f["id"]] = f
             elif new_violation is None:
-                new_violation = (vrec["seed"], vrec["cfg"], vrec["steps"], v, "run_index:%d" % vrec["index"])
+                new_violation = (vrec["seed"], vrec["cfg"], vrec["steps"], v, "run_index:%d" % vrec["index"],
+                                 vrec.get("prefix") or None)
 
     for line in foreign:
         print("note: " + line)
@@ -219,14 +238,19 @@ def cmd_check(prop, tier, runs=None, wall=None):
 
     replay_path = None
     if new_violation is not None:
-        seed, cfg, steps, v, origin = new_violation
-        msteps, mres = minimise.minimise(cls, cfg, steps, v)
+        seed, cfg, steps, v, origin, prefix = new_violation
+        if v["oracle"] == "step.hang":      # candidates that still hang cost wall time: shorter limit while shrinking
+            runner = lambda cfg, steps, prelude=None: clean.run(world, cfg, steps, prelude, step_limit=2)  # noqa: E731
+        msteps, mres, mprelude = minimise.minimise(cls, cfg, steps, v, runner, prefix)
         if mres is None:
-            print("HARNESS-ERROR: violation (%s, %s) from %s does not reproduce from its step list"
-                  % (prop, v["oracle"], origin))
+            print("HARNESS-ERROR: violation (%s, %s) from %s does not reproduce from its step list, with or "
+                  "without the %d earlier runs of its process" % (prop, v["oracle"], origin, len(prefix or [])))
             return 2
         mv = [x for x in mres["violations"] if (x["property"], x["oracle"]) == (prop, v["oracle"])][0]
-        replay_path = write_replay(prop, world, seed, cfg, msteps, mres, mv)
+        if mprelude:
+            print("note: the failure depends on process state left by %d earlier run(s) of the same process; "
+                  "they are part of the replay file (prelude)" % len(mprelude))
+        replay_path = write_replay(prop, world, seed, cfg, msteps, mres, mv, mprelude)
         p = _child(["replay", replay_path, "--quiet"])
         if p.returncode != 1:
             print("HARNESS-ERROR: minimised replay %s does not fail in a fresh interpreter (rc=%d)\n%s"
@@ -238,11 +262,17 @@ def cmd_check(prop, tier, runs=None, wall=None):
         print("VIOLATION property=%s replay=%s" % (prop, replay_path))
         exit_code = 1
 
+    clean.close()
+
     # 3. determinism sample (quick: 20 seeds; thorough: 100)
     det = determinism_sample(world, prop, 20 if tier == "quick" else 100, batch_seed)
     if det["mismatches"]:
-        print("HARNESS-ERROR: digests differ between repetitions for run indices %s" % det["mismatches"][:5])
-        return 2
+        if exit_code == 1:
+            print("note: digests of repeated runs differ on this tree (run indices %s): the library under test "
+                  "carries state from one run to the next" % det["mismatches"][:5])
+        else:
+            print("HARNESS-ERROR: digests differ between repetitions for run indices %s" % det["mismatches"][:5])
+            return 2
 
     # 4. evidence
     write_evidence(prop, tier, batch_seed, world, cls, agg, corpus_n, known_hit, det,
@@ -354,7 +384,11 @@ def main():
     a = ap.parse_args()
     try:
         if a.cmd == "check":
-            return cmd_check(a.prop, a.tier, a.runs, a.wall)
+            try:
+                return cmd_check(a.prop, a.tier, a.runs, a.wall)
+            finally:
+                for ch in __import__("multiprocessing").active_children():
+                    ch.kill()
         if a.cmd == "replay":
             return cmd_replay(a.path, a.quiet)
         if a.cmd == "selftest":
